@@ -57,11 +57,18 @@ fn scenario(name: &'static str, n: usize, rounds: usize, menu: Vec<PushAnswer>, 
 }
 
 fn scenario_x(name: &'static str, n: usize, rounds: usize, menu: Vec<PushAnswer>, delete_after: Option<usize>, frozen: bool, interfere: bool) -> ScenFn {
+    scenario_y(name, n, rounds, menu, delete_after, frozen, interfere, 10)
+}
+
+/// `dl`: the subscription's ack_deadline_seconds
+#[allow(clippy::too_many_arguments)]
+fn scenario_y(name: &'static str, n: usize, rounds: usize, menu: Vec<PushAnswer>, delete_after: Option<usize>, frozen: bool, interfere: bool, dl: i32) -> ScenFn {
+    let lease_ms: i64 = (dl.max(10) as i64) * 1000;
     scen!([menu] |cx| {
         cx.set_push_menu(menu.clone());
         let a = cx.api.clone();
         must!(cx, "setup:create-topic", { let a = a.clone(); async move { a.create_topic(T0).await } });
-        must!(cx, "setup:create-push-sub", { let a = a.clone(); async move { a.create_sub(S0, T0, 10, Some(ENDPOINT)).await } });
+        must!(cx, "setup:create-push-sub", { let a = a.clone(); async move { a.create_sub(S0, T0, dl, Some(ENDPOINT)).await } });
         must!(cx, "setup:create-pull-sub", { let a = a.clone(); async move { a.create_sub(S1, T0, 10, None).await } });
         let mut payloads: Vec<Vec<u8>> = (0..n).map(|i| format!("message-{}", i).into_bytes()).collect();
         let attrs = vec![("k".to_string(), "v".to_string())];
@@ -110,7 +117,7 @@ fn scenario_x(name: &'static str, n: usize, rounds: usize, menu: Vec<PushAnswer>
                 for s in seen.iter().filter(|s| s.msg == k) {
                     let ok_at = match &s.answer {
                         PushAnswer::Status(st) if accepted(*st) => Some(s.at_ms),
-                        PushAnswer::Delay(ms, st) if accepted(*st) && (*ms as i64) < 10_000 => Some(s.at_ms + *ms as i64),
+                        PushAnswer::Delay(ms, st) if accepted(*st) && (*ms as i64) < lease_ms => Some(s.at_ms + *ms as i64),
                         _ => None,
                     };
                     if let Some(t) = ok_at {
@@ -120,7 +127,7 @@ fn scenario_x(name: &'static str, n: usize, rounds: usize, menu: Vec<PushAnswer>
                     }
                     // exclusive lease: not while an earlier attempt is still unanswered and its lease is running
                     if let PushAnswer::Delay(ms, _) = &s.answer {
-                        let busy_until = (s.at_ms + *ms as i64).min(s.at_ms + 10_000);
+                        let busy_until = (s.at_ms + *ms as i64).min(s.at_ms + lease_ms);
                         if att.at_ms < busy_until {
                             return ScenarioOut::viol("push/while-in-flight", format!("{}: message {} POSTed at {} ms while the attempt of {} ms was unanswered and leased", name, k, att.at_ms, s.at_ms));
                         }
@@ -159,7 +166,7 @@ fn scenario_x(name: &'static str, n: usize, rounds: usize, menu: Vec<PushAnswer>
                             PushAnswer::Status(_) | PushAnswer::ConnError => due = true,
                             PushAnswer::Delay(ms, st) => {
                                 let answered = s.at_ms + *ms as i64;
-                                let lease_end = s.at_ms + 10_000;
+                                let lease_end = s.at_ms + lease_ms;
                                 if accepted(*st) && answered < lease_end {
                                     // accepted in time (possibly not yet): never due again
                                     blocked = true;
@@ -226,7 +233,7 @@ fn scenario_x(name: &'static str, n: usize, rounds: usize, menu: Vec<PushAnswer>
         }
         // accepted messages are gone from the push subscription, everything else is still held by it
         if deleted_at.is_none() && recreated_at.is_none() {
-            let acc = (0..n).filter(|k| seen.iter().any(|s| s.msg == *k && match &s.answer { PushAnswer::Status(st) => accepted(*st), PushAnswer::Delay(ms, st) => accepted(*st) && (*ms as i64) < 10_000 && s.at_ms + (*ms as i64) <= cx.now_ms(), _ => false })).count();
+            let acc = (0..n).filter(|k| seen.iter().any(|s| s.msg == *k && match &s.answer { PushAnswer::Status(st) => accepted(*st), PushAnswer::Delay(ms, st) => accepted(*st) && (*ms as i64) < lease_ms && s.at_ms + (*ms as i64) <= cx.now_ms(), _ => false })).count();
             let st = tryv!(cx.stats(S0).await).unwrap();
             if st.backlog + st.outstanding != n - acc {
                 return ScenarioOut::viol("push/accounting", format!("{}: {} of {} messages accepted but the subscription holds backlog={} outstanding={}; history {:?}", name, acc, n, st.backlog, st.outstanding, history));
@@ -286,6 +293,7 @@ pub fn units(thorough: bool) -> Vec<Unit> {
         explore_unit("fault/delete", "2 messages, failing / slow answers, DeleteSubscription after the first or second round: no POST afterwards", Bounds::new(0), cfg.clone(), scenario("delete", 2, 4, vec![Status(500), Delay(2_500, 500), Status(200)], Some(0), true)),
         explore_unit("fault/delete-later", "the same with the deletion after the second round", Bounds::new(0), cfg.clone(), scenario("delete-later", 2, 4, vec![Status(500), Delay(2_500, 500), Status(200)], Some(1), true)),
         explore_unit("fault/2msg-sched", "2 messages, answers {200, 500, connection error}, 3 rounds, with the scheduling of the push tasks, dispatches and actors explored", Bounds::new(if thorough { 2 } else { 1 }), cfg.clone(), scenario("2msg-sched", 2, 3, vec![Status(200), Status(500), ConnError], None, false)),
+        explore_unit("fault/long-deadline", "1 message on a push subscription with a 60 s ack deadline; the endpoint answers after 5 / 20 / 40 / 55 s (200 or 500) or at once; 130 rounds: an answer inside the 60 s deadline counts, whatever its delay", Bounds::new(0), cfg.clone(), scenario_y("long-deadline", 1, 130, vec![Delay(40_000, 200), Delay(55_000, 200), Delay(20_000, 500), Delay(5_000, 200), Status(200)], None, true, false, 60)),
         explore_unit("fault/interference", "2 messages failing in the first round; between the rounds a rejected duplicate CreateSubscription of the push subscription (with / without endpoint), an unrelated create, a get: the retries go on regardless", Bounds::new(0), cfg.clone(), scenario_x("interference", 2, 3, vec![Status(500), Status(200)], None, true, true)),
         status_sweep(),
     ];
